@@ -315,17 +315,20 @@ LawModes ==
         IS |-> Arg("mol/kg", 1, 1), I0 |-> Arg("mol/kg", 1, 1), a |-> Arg("nm", 1, 1), B |-> Arg("1/nm", 1, 1)],
        [mode |-> "scaled", backend |-> "default", consts |-> FALSE,
         IS |-> Arg("mmol/kg", 1000, 1), I0 |-> Arg("mol/kg", 1, 1), a |-> Arg("angstrom", 10, 1), B |-> Arg("1/nm", 1, 1)] >>
+(* A, B take `constants` and `units`: every accepted combination (constants object given / not) x  *)
+(* (units object given / not) x (inputs plain / default units / scaled units); without any of the  *)
+(* two objects the inputs are plain numbers, with either of them they are quantities              *)
+ABM(mode, c, uo, tu, tn, td, ru, rn, rd, bu) ==
+    [mode |-> mode, backend |-> "default", consts |-> c, uobj |-> uo,
+     T |-> Arg(tu, tn, td), rho |-> Arg(ru, rn, rd), b0 |-> Arg(bu, 1, 1)]
 ABModes ==
-    << [mode |-> "plain", backend |-> "default", consts |-> FALSE,
-        T |-> Arg("none", 1, 1), rho |-> Arg("none", 1, 1), b0 |-> Arg("none", 1, 1)],
-       [mode |-> "units", backend |-> "default", consts |-> FALSE,
-        T |-> Arg("K", 1, 1), rho |-> Arg("kg/m3", 1, 1), b0 |-> Arg("mol/kg", 1, 1)],
-       [mode |-> "scaled", backend |-> "default", consts |-> FALSE,
-        T |-> Arg("mK", 1000, 1), rho |-> Arg("g/cm3", 1, 1000), b0 |-> Arg("mol/kg", 1, 1)],
-       [mode |-> "units", backend |-> "default", consts |-> TRUE,
-        T |-> Arg("K", 1, 1), rho |-> Arg("kg/m3", 1, 1), b0 |-> Arg("mol/kg", 1, 1)],
-       [mode |-> "scaled", backend |-> "default", consts |-> TRUE,
-        T |-> Arg("mK", 1000, 1), rho |-> Arg("g/cm3", 1, 1000), b0 |-> Arg("mmol/g", 1, 1)] >>
+    << ABM("plain",  FALSE, FALSE, "none", 1, 1, "none", 1, 1, "none"),
+       ABM("units",  FALSE, TRUE,  "K", 1, 1, "kg/m3", 1, 1, "mol/kg"),
+       ABM("scaled", FALSE, TRUE,  "mK", 1000, 1, "g/cm3", 1, 1000, "mol/kg"),
+       ABM("units",  TRUE,  TRUE,  "K", 1, 1, "kg/m3", 1, 1, "mol/kg"),
+       ABM("scaled", TRUE,  TRUE,  "mK", 1000, 1, "g/cm3", 1, 1000, "mmol/g"),
+       ABM("units",  TRUE,  FALSE, "K", 1, 1, "kg/m3", 1, 1, "mol/kg"),
+       ABM("scaled", TRUE,  FALSE, "mK", 1000, 1, "g/cm3", 1, 1000, "mmol/g") >>
 ProdModes == << [mode |-> "plain", backend |-> "default"], [mode |-> "plain", backend |-> "math"],
                 [mode |-> "class", backend |-> "default"] >>
 (* molalities with the point's ionic strength, in the proportions of the stoichiometry       *)
